@@ -3,6 +3,7 @@ package core
 import (
 	"fmt"
 	"go/token"
+	"go/types"
 	"strings"
 
 	"golang.org/x/tools/go/ssa"
@@ -385,6 +386,18 @@ func Gate(fn *ssa.Function, effects []ssa.Instruction, pass ...Lit) GateResult {
 			}
 		}
 	}
+	// the outcome of a predicate helper that it can only produce through pass edges
+	if pc, per, n := predicateEdges(fn, pass); len(pc) > 0 {
+		for e := range pc {
+			if !cut[e] {
+				cut[e] = true
+			}
+		}
+		res.PassEdges += n
+		for i := range per {
+			res.PerLit[i] += per[i]
+		}
+	}
 	target := map[*ssa.BasicBlock]bool{}
 	for _, e := range effects {
 		target[e.Block()] = true
@@ -492,6 +505,16 @@ func MustFollowCut(fn *ssa.Function, start Point, isB func(ssa.Instruction) bool
 				}
 			}
 		}
+	}
+	if extra := dischargedEdges(fn, isB); len(extra) > 0 {
+		merged := map[Edge]bool{}
+		for e := range cut {
+			merged[e] = true
+		}
+		for e := range extra {
+			merged[e] = true
+		}
+		cut = merged
 	}
 	type st struct {
 		b   *ssa.BasicBlock
@@ -787,6 +810,70 @@ func FlagCuts(fn *ssa.Function, effects []ssa.Instruction) map[Edge]bool {
 				}
 			}
 			walk(phi)
+		}
+	}
+	return out
+}
+
+// dischargedEdges: the branch `if helper(...)` on a boolean private helper whose every
+// path to a return that can yield the outcome executes an isB instruction has its
+// obligation met on that outcome's edge (`if entry != nil && t.tryServe(...) { return }`
+// with the B inside tryServe, before its `return true`).
+var inDischarged bool
+
+func dischargedEdges(fn *ssa.Function, isB func(ssa.Instruction) bool) map[Edge]bool {
+	if Current == nil || inDischarged {
+		return nil
+	}
+	inDischarged = true
+	defer func() { inDischarged = false }()
+	var out map[Edge]bool
+	for _, b := range fn.Blocks {
+		if len(b.Instrs) == 0 {
+			continue
+		}
+		iff, ok := b.Instrs[len(b.Instrs)-1].(*ssa.If)
+		if !ok {
+			continue
+		}
+		c, neg := StripNot(iff.Cond)
+		cl, ok := Strip(c).(*ssa.Call)
+		if !ok {
+			continue
+		}
+		h := cl.Call.StaticCallee()
+		if h == nil || h == fn || h.Blocks == nil || !helperOK(h) || h.Signature.Results().Len() != 1 {
+			continue
+		}
+		if bt, ok := h.Signature.Results().At(0).Type().Underlying().(*types.Basic); !ok || bt.Kind() != types.Bool {
+			continue
+		}
+		for _, want := range []bool{true, false} {
+			all, n := true, 0
+			Instrs(h, func(in ssa.Instruction) {
+				r, ok := in.(*ssa.Return)
+				if !ok || len(r.Results) != 1 || in.Block() == h.Recover || !all {
+					return
+				}
+				if v, isC := ConstBool(r.Results[0]); isC && v != want {
+					return
+				}
+				n++
+				if ReachInstr(h, r, nil, isB) != nil {
+					all = false
+				}
+			})
+			if !all || n == 0 {
+				continue
+			}
+			idx := 1
+			if want == !neg {
+				idx = 0
+			}
+			if out == nil {
+				out = map[Edge]bool{}
+			}
+			out[Edge{b, b.Succs[idx]}] = true
 		}
 	}
 	return out
